@@ -406,3 +406,62 @@ mlf_from_raw_buffer = Contract("C01.MultiLineFastaBuffer.from_raw_buffer", targe
                                canaries=[("cut after the marker", "entry_starts = new_lines[new_entries]+1", "entry_starts = new_lines[new_entries]+2"),
                                          ("first entry start instead of the last", "cut_chunk = chunk[:entry_starts[-1]]", "cut_chunk = chunk[:entry_starts[0]]")])
 CONTRACTS.append(mlf_from_raw_buffer)
+
+
+# ---- P5: MultiLineFastaBuffer.contains_complete_entry (drives the accumulation loop of read_chunk for wrapped FASTA): X3a for this format -------------
+# For one non-empty raw piece (the contract is written for k pieces; k >= 2 is too slow to run on every change): True exactly when a line starting with '>' begins after the first byte of the concatenation - inside a piece
+# (newline at p-1 <= |piece|-2, '>' at p) or on a boundary (the previous piece ends with a newline and this one starts with '>').
+# `has_j` is a definitional ghost (Skolemised existential): has_j <-> exists p. entry start inside piece j.
+def _setup_cce(k):
+    def setup(ctx):
+        st = St()
+        st.k = k
+        st.N = [z3.Int("len%d" % j) for j in range(k)]
+        st.c = [z3.Function("c%d" % j, z3.IntSort(), z3.IntSort()) for j in range(k)]
+        st.has = [z3.Bool("has_entry_start_inside_%d" % j) for j in range(k)]
+        st.w = [z3.Int("witness%d" % j) for j in range(k)]
+        st.args = [_MLF(), [SArr.fresh(st.N[j], (lambda j: lambda p: st.c[j](I(p)))(j)) for j in range(k)]]
+        return st
+    return setup
+
+
+def _inside(st, j, p):
+    return And(I(p) >= 1, I(p) <= st.N[j] - 1, st.c[j](I(p) - 1) == 10, st.c[j](I(p)) == 62)
+
+
+def _req_cce(ctx, st):
+    out = []
+    for j in range(st.k):
+        out += [st.N[j] >= 1, Forall((lambda j: lambda p: And(st.c[j](p) >= 0, st.c[j](p) < 256))(j), triggers=[st.c[j]], name="bytes of piece %d" % j),
+                Forall((lambda j: lambda p: Implies(_inside(st, j, p), st.has[j]))(j), triggers=[], name="has_%d: introduction" % j),
+                Implies(st.has[j], _inside(st, j, st.w[j]))]
+    ctx.index_terms.extend(st.w)
+    ctx.index_terms.extend([w - 1 for w in st.w])
+    return out
+
+
+def _ens_cce(ctx, st, ret):
+    spec = Or(*(st.has + [And(st.c[j - 1](st.N[j - 1] - 1) == 10, st.c[j](0) == 62) for j in range(1, st.k)]))
+    if ret is True:
+        return [("True.only.when.an.entry.starts.after.the.first.byte", spec)]
+    if ret is False:
+        return [("False.only.when.no.entry.starts.after.the.first.byte", Not(spec))]
+    return [("a.boolean.that.says.whether.an.entry.starts.after.the.first.byte", B(ret) == spec)]
+
+
+def _ghost_cce(ip, env, st):
+    """mention the position the code itself found (the byte after the first newline that is followed by the marker): the introduction rule of
+    has_j is instantiated there (adds no facts)"""
+    nl, ne = env.vars.get("new_lines"), env.vars.get("new_entries")
+    if isinstance(nl, SArr) and isinstance(ne, SArr):
+        ip.ctx.index_terms.append(conc(I(nl.at(ne.at(0))) + 1))
+
+
+def _mk_cce(k):
+    return Contract("C01.MultiLineFastaBuffer.contains_complete_entry[%d pieces]" % k, target=lambda: _MLF().contains_complete_entry.__func__, setup=_setup_cce(k), ghost=[("if new_entries.size >= 1", _ghost_cce)],
+                    requires=_req_cce, ensures=_ens_cce, decorators={"@classmethod": "receiver is the class"},
+                    note="one raw piece (the boundary case between two pieces costs > 5 min of solver time and stays bounded)",
+                    canaries=[])      # a broken variant leaves the solver at `unknown` (the ghost definition is a trigger-less quantifier): undecided, never a false pass
+
+
+CONTRACTS += [_mk_cce(1)]
